@@ -167,6 +167,8 @@ def run(v, tier, seed):
     shutil.rmtree(os.path.join(vlib.REPLAYS, "C10"), ignore_errors=True)
     import schemabuild     # + schemas built by spec/SchemaBuild.tla (the same ones the view machine gets)
     schemas = catalogue.view_schemas() + schemabuild.generated_schemas(10 if thorough else 3, seed)[:4 if thorough else 1]
+    # + the repository's own schemas (tools/xmlimport.py): one message each (quick), a seeded six (thorough)
+    schemas += viewpipe.repo_schemas("quick", seed, 6 if thorough else 1, naming=False)
     configs = CONFIGS_THOROUGH if thorough else CONFIGS_QUICK
     t0 = time.time()
 
